@@ -8,7 +8,9 @@ string); lists of strings are comma-separated (`~` = empty list).
   known <base> <vars>                 append an entry of known_groups
   a2e <new> <olds>                    append an entry of aurel_to_ET_varnames
   sim <simpath> <simname>             new simulation (no restarts, empty file system)
-  restart <nbr>                       add directory output-<nbr>
+  entries <names>                     os.listdir of the simulation directory (replaces the previous listing)
+  restart <nbr>                       describe directory output-<%04d>/<simname>/
+  clearfiles <nbr>                    forget its entries (the restart grew; `file` lines follow)
   file <nbr> <name> <hashorder> <keys>  append a directory entry (os.listdir order)
   iter <0|1>                          iterations(skip_last)     -> result ; file
   readit <0|1>                        read_iterations(skip_last) -> result ; file
@@ -68,7 +70,7 @@ def vfS (vf : VarsAndFiles) : String :=
 
 structure DState where
   T : Tables := { knownGroups := [], aurelToET := [] }
-  S : Sim := { simpath := [], simname := [], restarts := [] }
+  S : Sim := { simpath := [], simname := [], entries := [], restarts := [] }
   fs : FS := { itfile := none, caches := [] }
 
 def fileS (fs : FS) : String := match fs.itfile with | some t => encS t | none => "none"
@@ -88,7 +90,7 @@ def step (st : DState) (line : String) : DState × String :=
   | ["reset"] => ({}, "ok")
   | ["known", b, vs] => ({ st with T := { st.T with knownGroups := st.T.knownGroups ++ [(decS b, decL vs)] } }, "ok")
   | ["a2e", n, os] => ({ st with T := { st.T with aurelToET := st.T.aurelToET ++ [(decS n, decL os)] } }, "ok")
-  | ["sim", p, n] => ({ st with S := { simpath := decS p, simname := decS n, restarts := [] },
+  | ["sim", p, n] => ({ st with S := { simpath := decS p, simname := decS n, entries := [], restarts := [] },
                                 fs := { itfile := none, caches := [] } }, "ok")
   | ["restart", n] =>
     ({ st with S := { st.S with restarts := st.S.restarts ++ [{ nbr := n.toNat!, files := [] }] } }, "ok")
@@ -96,6 +98,10 @@ def step (st : DState) (line : String) : DState × String :=
     let f : H5File := { name := decS name, keys := decL keys, hashOrder := decL ho }
     ({ st with S := { st.S with restarts := st.S.restarts.map fun d =>
         if d.nbr == n.toNat! then { d with files := d.files ++ [f] } else d } }, "ok")
+  | ["entries", es] => ({ st with S := { st.S with entries := decL es } }, "ok")
+  | ["clearfiles", n] =>
+    ({ st with S := { st.S with restarts := st.S.restarts.map fun d =>
+        if d.nbr == n.toNat! then { d with files := [] } else d } }, "ok")
   | ["iter", sk] =>
     let (fs, r) := iterationsCall st.T st.S (sk == "1") st.fs
     ({ st with fs := fs }, resS r ++ " ; " ++ fileS fs)
